@@ -4,45 +4,48 @@
     }
     /// error-message construction is irrelevant to the property and dominates CBMC's cost
     fn fmt_stub(_a: std::fmt::Arguments<'_>) -> String { String::new() }
-    /// HashMap's per-process random hash seed comes from a system call Kani cannot model; any seed gives the same map semantics
-    fn seed_stub() -> std::collections::hash_map::RandomState { unsafe { std::mem::zeroed() } }
 
     /// a GDSII library whose database unit is `u`'s size in metres (user unit one micron) imports as `u`
     /// (the exporter's side of the table, export_lib's `match self.lib.units`, is checked by the Verus unit raw_gds against the same numbers)
     fn roundtrip(u: Units) {
         let g = gds21::GdsUnits::new(metres(u) / 1e-6, metres(u));
-        let mut imp = GdsImporter::default();
-        let r = imp.import_units(&g);
+        let r = on_importer(|imp| imp.import_units(&g));
         assert!(r.is_ok());
         assert!(r.unwrap() == u);
     }
+    /// an importer of which only the error-context stack is initialised: import_units touches nothing else, and building the whole
+    /// `GdsImporter::default()` (Arc<RwLock<Layers>>, two HashMaps, a Library) drags hashbrown's internals into CBMC (no result in 15 min)
+    fn on_importer<R>(f: impl FnOnce(&mut GdsImporter) -> R) -> R {
+        let mut slot = std::mem::MaybeUninit::<GdsImporter>::uninit();
+        let p = slot.as_mut_ptr();
+        unsafe {
+            std::ptr::addr_of_mut!((*p).ctx).write(Vec::new());
+            let r = f(&mut *p);
+            std::ptr::drop_in_place(std::ptr::addr_of_mut!((*p).ctx));
+            r
+        }
+    }
     #[kani::proof]
     #[kani::stub(alloc::fmt::format, fmt_stub)]
-    #[kani::stub(std::collections::hash_map::RandomState::new, seed_stub)]
     #[kani::unwind(8)]
     fn units_micro() { roundtrip(Units::Micro); }
     #[kani::proof]
     #[kani::stub(alloc::fmt::format, fmt_stub)]
-    #[kani::stub(std::collections::hash_map::RandomState::new, seed_stub)]
     #[kani::unwind(8)]
     fn units_nano() { roundtrip(Units::Nano); }
     #[kani::proof]
     #[kani::stub(alloc::fmt::format, fmt_stub)]
-    #[kani::stub(std::collections::hash_map::RandomState::new, seed_stub)]
     #[kani::unwind(8)]
     fn units_angstrom() { roundtrip(Units::Angstrom); }
     #[kani::proof]
     #[kani::stub(alloc::fmt::format, fmt_stub)]
-    #[kani::stub(std::collections::hash_map::RandomState::new, seed_stub)]
     #[kani::unwind(8)]
     fn units_pico() { roundtrip(Units::Pico); }
     // vacuity canary: MUST fail
     #[kani::proof]
     #[kani::stub(alloc::fmt::format, fmt_stub)]
-    #[kani::stub(std::collections::hash_map::RandomState::new, seed_stub)]
     #[kani::unwind(8)]
     fn canary_units_reachable() {
-        let mut imp = GdsImporter::default();
-        let r = imp.import_units(&gds21::GdsUnits::new(1e-3, 1e-9));
+        let r = on_importer(|imp| imp.import_units(&gds21::GdsUnits::new(1e-3, 1e-9)));
         assert!(r.is_ok() && r.unwrap() == Units::Micro);
     }
